@@ -40,24 +40,26 @@ type gor struct {
 
 // Sched is one scheduled execution.
 type Sched struct {
-	mu       sync.Mutex
-	active   bool
-	rootID   int64
-	gs       map[int64]*gor
-	parked   []*gor
-	named    int
-	locks    map[any]*lockState
-	Choose   func(n int) int // decision source: returns an index in [0, n)
-	Decided  []int           // the decisions taken (index into the name-sorted runnable list)
-	Steps    int
-	MaxSteps int
-	Deadlock string // non-empty: no goroutine could run although work remained
-	CapHit   bool
-	Trace    []string // "name@site" per step (kept short)
+	mu        sync.Mutex
+	active    bool
+	rootID    int64
+	gs        map[int64]*gor
+	parked    []*gor
+	named     int
+	locks     map[any]*lockState
+	Choose    func(n int) int // decision source: returns an index in [0, n)
+	Runnable  []string        // names of the runnable goroutines at the current decision (sorted); for choosers
+	Last      string          // name of the goroutine that ran the previous step
+	Decided   []int           // the decisions taken (index into the name-sorted runnable list)
+	Steps     int
+	MaxSteps  int
+	Deadlock  string // non-empty: no goroutine could run although work remained
+	CapHit    bool
+	Trace     []string // "name@site" per step (kept short)
 	KeepTrace bool
-	Finished func() bool // workload-complete predicate, evaluated at quiescence
-	After    func()      // optional: runs on the root goroutine, inside the bubble, after the loop
-	Sites    map[string]int
+	Finished  func() bool // workload-complete predicate, evaluated at quiescence
+	After     func()      // optional: runs on the root goroutine, inside the bubble, after the loop
+	Sites     map[string]int
 }
 
 var current *Sched
@@ -314,6 +316,11 @@ func (s *Sched) loop() {
 
 		k := 0
 		if len(runnable) > 1 {
+			s.Runnable = s.Runnable[:0]
+			for _, g := range runnable {
+				s.Runnable = append(s.Runnable, g.name)
+			}
+
 			k = s.Choose(len(runnable))
 			if k < 0 || k >= len(runnable) {
 				k = 0
@@ -323,6 +330,7 @@ func (s *Sched) loop() {
 		}
 
 		g := runnable[k]
+		s.Last = g.name
 
 		for i, p := range s.parked {
 			if p == g {
@@ -379,5 +387,83 @@ func ListChooser(list []int, next func(n int) int) func(n int) int {
 		}
 
 		return 0
+	}
+}
+
+// MixedChooser returns a decision source whose strategy is itself drawn from the
+// seed: uniform random choice, sticky choice (keep running the same goroutine
+// with high probability: long uninterrupted stretches) or PCT-style priorities
+// (run the highest-priority runnable goroutine; at a few random steps the
+// running goroutine drops to the lowest priority). All three are pure functions
+// of the seed and of the runnable sets, so a run replays from its decision list.
+func MixedChooser(seed uint64, s *Sched) func(n int) int {
+	x := seed
+	next := func() uint64 {
+		x += 0x9e3779b97f4a7c15
+		z := x
+		z = (z ^ (z >> 30)) * 0xbf58476d1ce4e5b9
+		z = (z ^ (z >> 27)) * 0x94d049bb133111eb
+
+		return z ^ (z >> 31)
+	}
+	intn := func(n int) int { return int(next() % uint64(n)) }
+
+	switch intn(3) {
+	case 0:
+		return intn
+	case 1:
+		stay := []int{70, 85, 95, 98}[intn(4)]
+
+		return func(n int) int {
+			if intn(100) < stay {
+				for i, name := range s.Runnable {
+					if name == s.Last {
+						return i
+					}
+				}
+			}
+
+			return intn(n)
+		}
+	default:
+		prio := map[string]int{}
+		low := 0
+		changes := map[int]bool{}
+		horizon := []int{200, 600, 2000}[intn(3)]
+
+		for i := 0; i < 1+intn(3); i++ {
+			changes[intn(horizon)] = true
+		}
+
+		decision := 0
+
+		return func(n int) int {
+			decision++
+
+			if changes[decision] {
+				low--
+				prio[s.Last] = low
+			}
+
+			if intn(16) == 0 {
+				return intn(n) // keeps spinning waiters from starving everyone else
+			}
+
+			best, bestP := 0, -1<<62
+
+			for i, name := range s.Runnable {
+				p, ok := prio[name]
+				if !ok {
+					p = 1 + intn(1000)
+					prio[name] = p
+				}
+
+				if p > bestP {
+					best, bestP = i, p
+				}
+			}
+
+			return best
+		}
 	}
 }
